@@ -18,17 +18,20 @@ import (
 )
 
 type c37Plan struct {
-	Case       int
-	Timeline   string
-	ChainRoot  string // old | new | kept | rogue
-	ChainDev   string // "", deviation, "expired", "not-yet-valid"
-	Certs      string // chain | none | as-only | ca-only | chain+root | other-chain
-	Signers    string // as | none | two-as | as+ca | ca | foreign-key | unrelated-cert
-	Sig        string // ok | corrupt | covers-other-content
-	Payload    string // csr | garbage
-	CSRSubject string // same | other-as | other-isd | none
-	CSRSig     string // ok | broken
-	CSRCurve   string
+	Case      int
+	Timeline  string
+	ChainRoot string // old | new | kept | rogue
+	ChainDev  string // "", deviation, or a validity window relative to the processing time (c37TimeDevs)
+	// SigningTime is the requester-chosen CMS signing-time attribute: now | absent |
+	// inside-chain-validity | long-ago | future-3s | future-1h
+	SigningTime string
+	Certs       string // chain | none | as-only | ca-only | chain+root | other-chain
+	Signers     string // as | none | two-as | as+ca | ca | foreign-key | unrelated-cert
+	Sig         string // ok | corrupt | covers-other-content
+	Payload     string // csr | garbage
+	CSRSubject  string // same | other-as | other-isd | none
+	CSRSig      string // ok | broken
+	CSRCurve    string
 	// derived
 	Trusted string
 	Reason  string // first unmet condition, "" = all conditions of the statement hold
@@ -41,7 +44,18 @@ var (
 	c37Signers  = []string{"none", "two-as", "as+ca", "ca", "foreign-key", "unrelated-cert"}
 	c37Sigs     = []string{"corrupt", "covers-other-content"}
 	c37Subjects = []string{"other-as", "other-isd", "none"}
-	c37Devs     = []string{"expired", "not-yet-valid", "as-no-timestamping", "as-is-ca", "ca-pathlen-1", "ca-ku-digsig-added",
+	// c37TimeDevs place the client chain's validity relative to the processing
+	// time: [NBOff, NAOff] of the AS certificate (offsets of at least 8 s).
+	c37TimeDevs = map[string][2]time.Duration{
+		"expired":          {-6 * hour, -1 * hour},
+		"expired-8s":       {-6 * hour, -8 * time.Second},
+		"expired-long":     {-10 * 24 * hour, -2 * 24 * hour},
+		"not-yet-valid":    {1 * hour, 6 * hour},
+		"not-yet-valid-8s": {8 * time.Second, 6 * hour},
+	}
+	c37TimeDevNames = []string{"expired", "expired-8s", "expired-long", "not-yet-valid", "not-yet-valid-8s"}
+	c37SigningTimes = []string{"absent", "inside-chain-validity", "inside-chain-validity", "long-ago", "future-3s", "future-1h"}
+	c37Devs         = []string{"expired", "not-yet-valid", "expired-8s", "expired-long", "not-yet-valid-8s", "as-no-timestamping", "as-is-ca", "ca-pathlen-1", "ca-ku-digsig-added",
 		"ca-not-ca", "twin-issuer", "as-outlives-ca", "as-no-ia", "as-ia-wildcard", "ca-eku-clientauth"}
 )
 
@@ -58,6 +72,21 @@ func genC37Plan(rng *rand.Rand, i int, tl timeline) c37Plan {
 		}
 	}
 	p.ChainRoot = pick(rng, roots)
+	p.SigningTime = "now"
+	// Time × attacker-controlled attribute: a third of the plans carry a
+	// signing-time attribute other than "now"; every seventh plan is otherwise
+	// conforming and varies only the chain's validity window and the attribute.
+	if rng.IntN(3) == 0 {
+		p.SigningTime = pick(rng, c37SigningTimes)
+	}
+	if i%7 == 3 {
+		// enumerated, not sampled: (validity window) × (signing time), cycling
+		devs := append([]string{""}, c37TimeDevNames...)
+		sts := []string{"now", "absent", "inside-chain-validity", "long-ago", "future-3s", "future-1h"}
+		j := i / 7
+		p.ChainDev, p.SigningTime = devs[j%len(devs)], sts[(j/len(devs))%len(sts)]
+		return p
+	}
 	if rng.IntN(100) < 40 {
 		return p
 	}
@@ -85,6 +114,7 @@ func genC37Plan(rng *rand.Rand, i int, tl timeline) c37Plan {
 }
 
 type c37Stats struct {
+	timeMatrix                   map[string]int // chain validity window × signing time × outcome → cases
 	validAccepted, validRejected int
 	chainsIssued, feasibleDenied int
 }
@@ -101,13 +131,9 @@ func runC37Request(r *mon.Run, pool *gen.Pool, rng *rand.Rand, p c37Plan, tl tim
 	// the client's chain
 	asKey := dr.Next("")
 	cs := chainSpec{Root: p.ChainRoot, IA: ia, NBOff: -2 * hour, NAOff: 6 * hour}
-	switch p.ChainDev {
-	case "":
-	case "expired":
-		cs.NBOff, cs.NAOff = -6*hour, -1*hour
-	case "not-yet-valid":
-		cs.NBOff, cs.NAOff = 1*hour, 6*hour
-	default:
+	if win, ok := c37TimeDevs[p.ChainDev]; ok {
+		cs.NBOff, cs.NAOff = win[0], win[1]
+	} else if p.ChainDev != "" {
 		cs.Dev = p.ChainDev
 	}
 	if tl.NearEdge && rng.IntN(3) == 0 {
@@ -157,6 +183,22 @@ func runC37Request(r *mon.Run, pool *gen.Pool, rng *rand.Rand, p c37Plan, tl tim
 		certs = otherChain
 	}
 	opts := gen.SIOpts{}
+	// The signing-time attribute is whatever the requester writes into it.
+	switch p.SigningTime {
+	case "", "now":
+	case "absent":
+		opts.NoSigningTime = true
+	case "inside-chain-validity": // for an expired chain: backdated; for a not yet valid one: forward-dated
+		opts.SigningTime = as.NotBefore.Add(time.Minute)
+	case "long-ago":
+		opts.SigningTime = w.TGen.Add(-400 * 24 * hour)
+	case "future-3s":
+		opts.SigningTime = time.Now().Add(3 * time.Second)
+	case "future-1h":
+		opts.SigningTime = w.TGen.Add(hour)
+	default:
+		panic("pkitrust: unknown signing time " + p.SigningTime)
+	}
 	switch p.Sig {
 	case "corrupt":
 		opts.CorruptSignature = true
@@ -251,6 +293,28 @@ func runC37Request(r *mon.Run, pool *gen.Pool, rng *rand.Rand, p c37Plan, tl tim
 		cls = "all-conditions-hold/" + tl.Name + "/" + inclFacts.Kind + "/" + why0
 	}
 	r.Class("request/" + cls + "/" + outcome)
+	// ---- time × signing-time attribute: everything else conforming, the latest TRC valid ----
+	chainTime := "valid"
+	if _, ok := c37TimeDevs[p.ChainDev]; ok && p.Certs == "chain" {
+		chainTime = p.ChainDev
+	}
+	stLabel := p.SigningTime
+	if stLabel == "inside-chain-validity" {
+		switch {
+		case strings.HasPrefix(chainTime, "expired"):
+			stLabel = "backdated"
+		case strings.HasPrefix(chainTime, "not-yet-valid"):
+			stLabel = "forward-dated"
+		}
+	}
+	timeOnly := p.Reason == "" || p.Reason == "chain-not-trusted:outside-validity"
+	if timeOnly && !tl.NearEdge && !(tl.PredExpiredInCase && why0 == "grace") {
+		r.Class(fmt.Sprintf("request/time/chain-%s/signing-time-%s/%s", chainTime, stLabel, outcome))
+		st.timeMatrix[fmt.Sprintf("chain-%s/signing-time-%s/%s", chainTime, stLabel, outcome)]++
+		if p.Reason != "" && p.SigningTime != "now" {
+			r.Event("request_outside_validity_with_chosen_signing_time")
+		}
+	}
 	if r.WantSample() && p.Case%61 == 7 {
 		r.Sample(map[string]any{"part": "request", "plan": p, "accepted": accepted})
 	}
@@ -260,13 +324,27 @@ func runC37Request(r *mon.Run, pool *gen.Pool, rng *rand.Rand, p c37Plan, tl tim
 		if strings.HasPrefix(p.Reason, "chain-not-trusted") {
 			key += "/" + tlKey(tl)
 		}
-		r.Violation(key,
-			fmt.Sprintf("renewal request accepted although: %s", p.Reason), p)
+		what := fmt.Sprintf("renewal request accepted although: %s", p.Reason)
+		if p.Reason == "chain-not-trusted:outside-validity" && p.SigningTime != "now" && chainTime != "valid" {
+			// the chain does not verify at processing time; only the requester-chosen attribute differs from an honest request
+			canon := "expired"
+			if strings.HasPrefix(chainTime, "not-yet-valid") {
+				canon = "not-yet-valid"
+			}
+			key = "C37:accepts/chain-" + canon + ":signing-time-" + stLabel
+			what = fmt.Sprintf("renewal request accepted although the client chain is %s at processing time (AS certificate valid %s .. %s relative to now); "+
+				"the CMS signing-time attribute was %s", chainTime, fmtOff(as.NotBefore.Sub(w.TGen)), fmtOff(as.NotAfter.Sub(w.TGen)), p.SigningTime)
+		}
+		r.Violation(key, what, p)
 	case accepted:
 		st.validAccepted++
 		if got == nil || !bytes.Equal(got.Raw, csr) {
 			r.Violation("C37:returns-other-request", "the verifier returned a request different from the signed one", p)
 		}
+	case want && p.SigningTime != "now":
+		// conforming at processing time, but the requester wrote an unusual signing
+		// time (or none): the statement does not say such a request must pass
+		r.Class("request/observed/conforming-with-signing-time-" + p.SigningTime + "/rejected")
 	case want && !(tl.PredExpiredInCase && why0 == "grace"):
 		st.validRejected++
 		r.Event("premise_valid_request_rejected")
@@ -423,7 +501,9 @@ func runC37Issue(r *mon.Run, pool *gen.Pool, rng *rand.Rand, i int, st *c37Stats
 }
 
 func checkC37(r *mon.Run) {
-	r.Rule = "renewal request plan = TRC timeline × client chain (issuing root, mis-issued/expired variants) × certificate set in the CMS × " +
+	r.Rule = "renewal request plan = TRC timeline × client chain (issuing root, mis-issued variants, validity window expired 8 s / 1 h / 2 d ago or " +
+		"starting in 8 s / 1 h relative to the processing time) × requester-chosen CMS signing-time attribute (now, absent, inside the chain's own " +
+		"validity = backdated / forward-dated, long ago, 3 s / 1 h in the future; window × attribute enumerated in every 7th plan) × certificate set in the CMS × " +
 		"SignerInfos (0, 1, 2; AS key / CA certificate / foreign key / unrelated certificate) × signature (ok, corrupted, covering other " +
 		"content) × payload × CSR subject (same, other AS, other ISD, none) × CSR self-signature; expectation from the plan, compared with " +
 		"RequestVerifier.VerifyCMSSignedRenewalRequest on a real sqlite trust DB at both bracket instants. Issuance: CAPolicy.CreateChain over " +
@@ -431,11 +511,12 @@ func checkC37(r *mon.Run) {
 		"chain is checked for requested key and subject, chain validity (independent profile checker + signature) and containment in the CA " +
 		"certificate's validity. class = first unmet condition × outcome; issuance start × validity × subject × outcome"
 	r.Assumptions = []string{
+		"whether the client chain verifies is decided at processing time (the bracket instants around the call); the signing-time attribute is requester-controlled and never makes a request acceptable",
 		"the statement is an 'only if': rejecting a conforming request is not judged, but the run is reported broken unless every conforming request was accepted and every feasible issuance granted",
 		"a chain verifying only against a predecessor TRC that has itself expired inside the grace period is observed, not judged",
 	}
 	pool := gen.NewPool(64, 6, 6)
-	st := &c37Stats{}
+	st := &c37Stats{timeMatrix: map[string]int{}}
 	rng := r.Rand("c37")
 	n := r.Pick(1000, 15000)
 	for i := 0; i < n; i++ {
@@ -450,6 +531,7 @@ func checkC37(r *mon.Run) {
 	for i := 0; i < ni; i++ {
 		runC37Issue(r, pool, rngI, i, st)
 	}
+	r.Extra("chain_window_x_signing_time_cases", st.timeMatrix)
 	r.Extra("valid_requests_accepted", st.validAccepted)
 	r.Extra("valid_requests_rejected", st.validRejected)
 	r.Extra("chains_issued", st.chainsIssued)
@@ -457,6 +539,14 @@ func checkC37(r *mon.Run) {
 	if st.validRejected == 0 && st.feasibleDenied == 0 && st.validAccepted > 0 && st.chainsIssued > 0 {
 		r.Class("premise/conforming-requests-accepted-and-feasible-issuances-granted")
 	}
-	r.RequireClasses("premise/conforming-requests-accepted-and-feasible-issuances-granted")
-	r.Require(int64((n+ni)/2), 50, "request_accepted", "request_rejected", "issue_granted", "issue_denied")
+	r.RequireClasses("premise/conforming-requests-accepted-and-feasible-issuances-granted",
+		"request/time/chain-valid/signing-time-now/accepted",
+		"request/time/chain-expired/signing-time-now/rejected", "request/time/chain-expired/signing-time-absent/rejected",
+		"request/time/chain-expired/signing-time-backdated/rejected", "request/time/chain-expired-8s/signing-time-backdated/rejected",
+		"request/time/chain-expired-long/signing-time-backdated/rejected", "request/time/chain-expired/signing-time-future-3s/rejected",
+		"request/time/chain-expired/signing-time-future-1h/rejected", "request/time/chain-expired/signing-time-long-ago/rejected",
+		"request/time/chain-not-yet-valid/signing-time-now/rejected", "request/time/chain-not-yet-valid/signing-time-forward-dated/rejected",
+		"request/time/chain-not-yet-valid-8s/signing-time-forward-dated/rejected", "request/time/chain-not-yet-valid/signing-time-absent/rejected")
+	r.Require(int64((n+ni)/2), 50, "request_accepted", "request_rejected", "issue_granted", "issue_denied",
+		"request_outside_validity_with_chosen_signing_time")
 }
